@@ -165,6 +165,8 @@ class QueryPlanner:
             # is it CTE?
             table_name = table.parts[-1]
             if integration_name == self.default_namespace and table_name in self.cte_results:
+                # a copy, like the fetch below: callers go on editing the select they handed over
+                select = copy.deepcopy(select)
                 select.from_table = None
                 return SubSelectStep(select, self.cte_results[table_name], table_name=table_name)
 
